@@ -69,6 +69,13 @@ CHECKS = {
         design_ref="3/C13",
         note="Process kill and failing calls, not power loss; SQLite's atomic commit trusted; fault points are the interposed Python-level calls.",
     ),
+    "C12": dict(
+        category="model_checking",
+        technique="TLA+ specs HistStore (reference list under $HISTCONTROL, buffer/disk boundary) and HistQueue (flusher/reader ticket queue: no lost wake-up, FIFO) checked by TLC; simulated and weighted append/flush/read sequences replayed on real JsonHistory/SqliteHistory and validated against HistStoreTrace by TLC; every enqueue x acquisition order of the ticket queue replayed through guarded schedule points",
+        text="TLC checks AppendOnly/ReadIsRef on HistStore and NoStuck/Served (weak fairness) on HistQueue for several ticket sets; thousands of operation sequences with adversarial texts are run on both back ends and every read view (len, +/- index, slices both ways, iteration, entries, items, lazy-index reads, whole-file JSON, table) must equal the reference list; all schedules of the ticket queue at acquisition-order granularity are reproduced deterministically on a real JsonHistory.",
+        design_ref="3/C12",
+        note="Trusts TLC; reads at quiescent points; queue schedules controlled at one gate per ticket with a settle delay (verdict from the final state only). Hook guard XONSH_XONSH_VERIF=1.",
+    ),
 }
 
 ALL = [f"C{i:02d}" for i in range(1, 21)]
@@ -97,7 +104,7 @@ def main():
             "guard": "XONSH_XONSH_VERIF",
             "enable": "checks import /repo's working tree directly (PYTHONPATH=/repo, /venv/bin/python); hook points are active only when XONSH_XONSH_VERIF=1 is set in the worker environment",
             "baseline_off_cmd": "cd /repo && env -u XONSH_XONSH_VERIF /venv/bin/python -m pytest -ra -q -p no:cacheprovider --timeout=900 --continue-on-collection-errors",
-            "source_commits": [],
+            "source_commits": ["15cb5b7"],
             "add_only": True,
         },
         "engines": [
